@@ -22,6 +22,7 @@ import (
 
 	oaerrors "github.com/go-openapi/errors"
 	"github.com/go-openapi/loads"
+	oaspec "github.com/go-openapi/spec"
 	"github.com/go-openapi/runtime"
 	"github.com/go-openapi/runtime/middleware"
 
@@ -383,10 +384,54 @@ func setup() error {
 	}
 	theAPI = operations.NewVfAPI(doc)
 	theAPI.Logger = func(string, ...interface{}) {}
+	for _, mt := range jsonLikeMediaTypes(doc) {
+		theAPI.RegisterConsumer(mt, runtime.JSONConsumer())
+		theAPI.RegisterProducer(mt, runtime.JSONProducer())
+	}
 	handlerNames = installHandlers(theAPI)
 	authNames = installAuth(theAPI)
 	theHandler = theAPI.Serve(nil)
 	return nil
+}
+
+// jsonLikeMediaTypes lists the media types of the document that are JSON dialects
+// (application/vnd.x+json): the driver serves them with the JSON codecs on both sides.
+func jsonLikeMediaTypes(doc *loads.Document) []string {
+	seen := map[string]bool{}
+	add := func(l []string) {
+		for _, m := range l {
+			if strings.Contains(m, "+json") {
+				seen[m] = true
+			}
+		}
+	}
+	sw := doc.Spec()
+	add(sw.Consumes)
+	add(sw.Produces)
+	if sw.Paths != nil {
+		for _, pi := range sw.Paths.Paths {
+			for _, op := range ops(pi.Get, pi.Put, pi.Post, pi.Delete, pi.Patch, pi.Head, pi.Options) {
+				add(op.Consumes)
+				add(op.Produces)
+			}
+		}
+	}
+	var out []string
+	for m := range seen {
+		out = append(out, m)
+	}
+	sort.Strings(out)
+	return out
+}
+
+func ops(list ...*oaspec.Operation) []*oaspec.Operation {
+	var out []*oaspec.Operation
+	for _, o := range list {
+		if o != nil {
+			out = append(out, o)
+		}
+	}
+	return out
 }
 
 func serveOne(rq request) (a answer) {
@@ -490,11 +535,13 @@ import (
 	"regexp"
 	"strings"
 
+	"github.com/go-openapi/loads"
 	"github.com/go-openapi/runtime"
 	httptransport "github.com/go-openapi/runtime/client"
 	"github.com/go-openapi/strfmt"
 
 	vfclient "MODPATH/client"
+	"MODPATH/restapi"
 )
 
 type inproc struct{}
@@ -580,6 +627,12 @@ func clientSetup() {
 	cfg := vfclient.DefaultTransportConfig()
 	rt := httptransport.New("vf.test", cfg.BasePath, []string{"http"})
 	rt.Transport = inproc{}
+	if doc, err := loads.Analyzed(restapi.SwaggerJSON, ""); err == nil {
+		for _, mt := range jsonLikeMediaTypes(doc) {
+			rt.Consumers[mt] = runtime.JSONConsumer()
+			rt.Producers[mt] = runtime.JSONProducer()
+		}
+	}
 	clientFacade = vfclient.New(rt, strfmt.Default)
 	// re-bind the services of the real facade
 	rv := reflect.ValueOf(clientFacade).Elem()
